@@ -413,6 +413,53 @@ def run_threads(ctx, rounds):
             return
 
 
+def run_text_documents(ctx):
+    """The document as JSON text (and a text stream), from 150 characters to over 64 Ki: the matches come from the text,
+    and every test / replace / remove through a match's pointer is applied to that same, unchanged text again and again -
+    a text is immutable, so every application starts from the document the text spells."""
+    import io
+    import json
+
+    import jsonpath
+
+    for n_rows in (2, 54, 56, 120, 880, 900):
+        doc = {"1": "one", "-1": "neg", "007": "bond", "~": "tilde", "/": "slash", "": "empty", "\u00e9": "acute", "rows": [{"id": i, "tags": ["t%d" % i, "x"]} for i in range(n_rows)]}
+        text = json.dumps(doc)
+        new = {"NEW": ["replacement", 424242]}
+        for qtext in ("$.rows[0,1].id", "$.*", "$.rows[-1].tags[0]", "$['1','-1','007','~','/','','\u00e9']", "$.rows[?@.id < 2]"):
+            ms = impl.call(lambda: list(jsonpath.finditer(qtext, text)))
+            if not ms.ok:
+                ctx.violation("query-over-a-text-document-raised:%s" % type(ms.exc).__name__, {"text_documents": True}, {"text": qtext, "error": ms.desc()})
+                return
+            for m in ms.value[:8]:
+                parts = tuple(m.parts)
+                ptr = m.pointer()
+                for rep in range(2):
+                    for what in ("replace", "remove", "test", "replace"):
+                        if what == "test":
+                            patch, want = jsonpath.JSONPatch().test(ptr, copy.deepcopy(walk_parts(doc, parts))), copy.deepcopy(doc)
+                        elif what == "replace":
+                            patch, want = jsonpath.JSONPatch().replace(ptr, copy.deepcopy(new)), edit(doc, parts, "replace", copy.deepcopy(new))
+                        else:
+                            patch, want = jsonpath.JSONPatch().remove(ptr), edit(doc, parts, "remove")
+                        for form in ("text", "stream"):
+                            o = impl.call(patch.apply, text if form == "text" else io.StringIO(text))
+                            ctx.evaluation()
+                            ctx.count("edits_of_one_json_text_document_through_match_pointers")
+                            if not o.ok or not strict_eq(o.value, want):
+                                ctx.violation("%s-through-match-pointer-on-a-text-document-used-before-differs" % what, {"text_documents": True}, {"query": qtext, "parts": list(parts), "op": what, "text_length": len(text), "form": form, "application": rep + 1, "outcome": o.desc() if not o.ok else "rows=%d, keys=%s" % (len(o.value.get("rows", [])), sorted(o.value)[:9])})
+                                return
+        ctx.cell("text_document_sizes", "%d characters" % len(text))
+        ctx.case(h("text-doc", n_rows), True)
+
+
+def walk_parts(doc, parts):
+    cur = doc
+    for p in parts:
+        cur = cur[p]
+    return cur
+
+
 def flags_history(ctx):
     """Matches of members whose names contain %XX or \\uXXXX sequences, edited through the
     pointer's string form by a default patch AFTER differently configured patches saw the same text."""
@@ -435,6 +482,7 @@ def run(spec, ctx):
     r = ctx.rng
     if spec.get("kind") == "flags":
         flags_history(ctx)
+        run_text_documents(ctx)
         return
     if spec.get("kind") == "threads":
         run_threads(ctx, spec["rounds"])
@@ -480,6 +528,9 @@ def finalize(m, tier):
 def replay(case, ctx):
     if case.get("kind") == "threads":
         run_threads(ctx, 90)
+        return
+    if case.get("text_documents"):
+        run_text_documents(ctx)
         return
     if case.get("flags") or case.get("class") == "flags-history":
         flags_history(ctx)
